@@ -1,5 +1,6 @@
 import XmppModel.Prelude.Hex
 import XmppModel.Model.Ibb
+import XmppModel.Model.IbbReader
 /-! Driver module for C15.
 
     C15 recv <maxbuf> <ops>    ops `,`-joined:  d:<known>:<seq>:<payloadhex>  data packet
@@ -45,12 +46,34 @@ def parsePacket (f : String) : Option Packet :=
     pure ⟨k, n, b⟩
   | _ => none
 
+/-- `C15 reader <acts>`: replay of a forced reader schedule on the LTS of `Model/IbbReader.lean`
+(repaired code).  acts `,`-joined: R Read called, W reader enters its wait, K the wait completes,
+P<n> a packet of n bytes is handled, C close.  answer: `delivered=<n> eof=<0|1> reading=<0|1>` -/
+def readerTok (s : IbbReader.St) (t : String) : Option IbbReader.St :=
+  match t.toList with
+  | ['R'] => IbbReader.step true s .readStart
+  | ['W'] => IbbReader.step true s .enterWait
+  | ['K'] => IbbReader.step true s .wake
+  | ['C'] => IbbReader.step true s .close
+  | 'P' :: r => do let n ← (String.ofList r).toNat?; IbbReader.step true s (.packet n)
+  | _ => none
+
+def readerRun : IbbReader.St → List String → Nat → Except String IbbReader.St
+  | s, [], _ => .ok s
+  | s, t :: ts, k => match readerTok s t with
+    | some s' => readerRun s' ts (k + 1)
+    | none => .error s!"bad@{k}:{t}"
+
 def handle (args : List String) : Option String :=
   match args with
   | ["recv", maxbuf, ops] => do
     let m ← maxbuf.toNat?
     let r ← runOps ⟨true, 0, [], m⟩ (splitList ops)
     pure (joinList r)
+  | ["reader", acts] =>
+    match readerRun IbbReader.init (splitList acts) 0 with
+    | .ok s => some s!"delivered={s.delivered} eof={showBool s.eof} reading={showBool (s.rpc != .idle)}"
+    | .error e => some e
   | ["open", acc] => do
     let a ← parseBool acc
     pure (if (openResult a).isSome then "conn" else "err")
